@@ -703,6 +703,24 @@ class Session:
                             "directive": dname, "incs": incs})
         return res
 
+    def coloured_parallel_loops(self):
+        """Number of loops over the cells of one colour that carry a
+        worksharing directive and whose kernels increment shared DoFs (the
+        legitimate end state; coverage indicator only)."""
+        # pylint: disable=import-outside-toplevel
+        from psyclone.psyir.nodes import Directive, Schedule
+        num = 0
+        for loop in self.loops():
+            if getattr(loop, "loop_type", None) != "colour":
+                continue
+            parent = loop.parent
+            direc = parent.parent if isinstance(parent, Schedule) else None
+            if isinstance(direc, Directive) and any(
+                    c.__name__ in WORKSHARE for c in type(direc).__mro__) \
+                    and self.loop_needs_colour(loop):
+                num += 1
+        return num
+
     # ---- code generation ----------------------------------------------
     def gen(self):
         """('ok', text) | ('refused', msg) | ('crash', msg)"""
